@@ -50,6 +50,7 @@ func main() {
 		journal := fs.String("journal", "", "")
 		out := fs.String("out", "", "")
 		only := fs.String("only", "", "")
+		upto := fs.Int("upto", -1, "")
 		fs.Parse(os.Args[2:])
 		p := fw.Lookup(*prop)
 		if p == nil {
@@ -63,7 +64,7 @@ func main() {
 			n, _ := strconv.Atoi((*only)[i+1:])
 			o = &fw.CaseRef{Stratum: (*only)[:i], Index: n}
 		}
-		fw.RunWorker(w, *skip, o, *journal, *out)
+		fw.RunWorker(w, *skip, *upto, o, *journal, *out)
 	case "job":
 		fs := flag.NewFlagSet("job", flag.ExitOnError)
 		seed := fs.Int64("seed", 1, "")
